@@ -200,7 +200,9 @@ def run():
                 raise core.BrokenCheck('concrete and abstract machine differ on %r (contradicts c04_observations_refine)' % (ops,))
             exp = [(x.split(':')[0] == 'X', int(x.split(':')[1]), int(x.split(':')[2])) for x in conc.split()]
             for rk, rank_out in enumerate(r[1]):
-                got = [tuple(t) for t in rank_out[si]]
+                # a rank whose block is empty in the current layout (extent smaller than the process count) sees no cell:
+                # its field observation (-3) is vacuous, refusal and layout are still compared
+                got = [tuple(t) if t[2] != -3 else (t[0], t[1], e[2]) for t, e in zip(rank_out[si], exp)]
                 if got != exp:
                     k = next(i for i in range(len(exp)) if got[i] != exp[i])
                     chk.violation('grid.Grid:history-mismatch',
